@@ -37,6 +37,14 @@ const (
 )
 
 var models = map[string]Model{
+	// --- locks: a lock's own state is synchronised by definition and nothing else is touched ---
+	"(*sync.Mutex).Lock":      {Why: "sync docs: lock state only"},
+	"(*sync.Mutex).Unlock":    {Why: "sync docs: lock state only"},
+	"(*sync.RWMutex).Lock":    {Why: "sync docs: lock state only"},
+	"(*sync.RWMutex).Unlock":  {Why: "sync docs: lock state only"},
+	"(*sync.RWMutex).RLock":   {Why: "sync docs: lock state only"},
+	"(*sync.RWMutex).RUnlock": {Why: "sync docs: lock state only"},
+
 	// --- errors / fmt ---
 	"fmt.Errorf":  {Pure: true, NonNil: []bool{true}, Custom: modelErrorf, Why: "fmt docs: always returns a non-nil error; %w wraps"},
 	"errors.New":  {Pure: true, NonNil: []bool{true}, Custom: modelErrorsNew, Why: "errors docs"},
@@ -559,4 +567,14 @@ func lookupModel(name string) (Model, bool) {
 		return m, ok
 	}
 	return Model{}, false
+}
+
+// isLockOp: Lock / Unlock / RLock / RUnlock of a sync.Mutex or sync.RWMutex.
+func isLockOp(name string) bool {
+	switch name {
+	case "(*sync.Mutex).Lock", "(*sync.Mutex).Unlock", "(*sync.RWMutex).Lock", "(*sync.RWMutex).Unlock",
+		"(*sync.RWMutex).RLock", "(*sync.RWMutex).RUnlock":
+		return true
+	}
+	return false
 }
